@@ -30,7 +30,7 @@ TEMPLATES = [
     (None, "bool({I})"), (None, "bool({F})"), (None, "len({S})"), (None, "len({L})"), ("round", "round({F})"), ("round", "round({F}, 1)"),
     (None, "{I} + {I}"), (None, "{I} - {I}"), (None, "{I} * {I}"), (None, "{I} // {P}"), (None, "{I} % {P}"), (None, "{I} // -{P}"), (None, "{I} % -{P}"), (None, "{I} / {P}"), (None, "{I} / -4"),
     (None, "{I} & {P}"), (None, "{I} | {P}"), (None, "{I} ^ {P}"), (None, "{P} << {k}"), (None, "{I} >> {k}"), (None, "{I} ** {k}"), (None, "{I} ** 0"), ("pow_negative_exponent", "{P} ** -1"),
-    (None, "{F} + {I}"), (None, "{F} - {F}"), (None, "{F} * {I}"), (None, "{F} / {P}"), (None, "{F} // {P}"), (None, "{F} % {P}"), (None, "{F} ** 2"), (None, "{I} + {B}"), (None, "{F} * {B}"), (None, "{B} + {B}"),
+    (None, "{F} + {I}"), (None, "{F} - {F}"), (None, "{F} * {I}"), (None, "{F} / {P}"), (None, "{F} // {P}"), (None, "{F} % {P}"), (None, "{F} ** 2"), (None, "{I} + {B}"), (None, "{F} * {B}"), (None, "{B} + {B}"), (None, "{B} + {B} + {B}"), (None, "({I} > 3) + ({I} > 3)"), (None, "{B} * 3 + {B}"), (None, "{B} - {B}"), (None, "{B} * {B}"), (None, "-{B}"),
     (None, "{I} < {I}"), (None, "{I} <= {F}"), (None, "{F} > {I}"), (None, "{I} == {I}"), (None, "{I} != {F}"), (None, "{I} == {B}"), (None, "{I} < {I} < {I}"), (None, "{I} <= {I} != {I}"), (None, "{I} > {I} >= {F}"),
     (None, "{B} and {B}"), (None, "{B} or {B}"), (None, "{B} and not {B}"), ("boolop_nonbool", "{I} or {I}"), ("boolop_nonbool", "{I} and {I}"), ("boolop_nonbool", "{B} or {I}"), ("boolop_nonbool", "{S} or {T}"),
     (None, "{I} if {B} else {I}"), (None, "{F} if {B} else {I}"), (None, "{S} if {B} else {T}"), (None, "{I} if {I} else {I}"), (None, "({I} > {I}) + 1"),
@@ -78,8 +78,12 @@ def exotic_case(draw, off):
     ctx = CONTEXTS[draw(st.integers(0, len(CONTEXTS) - 1))]
     if ctx.startswith("if ") and "str_truth" in off:
         # a String / list in a boolean position is the open truthiness class: decide on the Python value of this instance
+        import warnings
+
         try:
-            val = eval(text, {"__builtins__": __builtins__}, dict(_ENV))
+            with warnings.catch_warnings():
+                warnings.simplefilter("ignore")
+                val = eval(text, {"__builtins__": __builtins__}, dict(_ENV))
         except Exception:
             val = None
         if isinstance(val, (str, list, tuple, dict)):
